@@ -9,11 +9,14 @@ tprog.ENTRIES = True
 tprog.DTYPE_KW = True
 PROP = 'C10'
 LEAN_TARGETS = ['Props.C10']
-REQUIRED_THEOREMS = ['Props.C10.result_dtype_preserved', 'Props.C10.grad_buffer_dtype_shape', "Props.C10.scalar_operand_dtype'", "Props.C10.apply_result_dtype'", 'Props.C10.apply_aligned']
+REQUIRED_THEOREMS = ['Props.C10.result_dtype_preserved', 'Props.C10.grad_buffer_dtype_shape', "Props.C10.scalar_operand_dtype'", "Props.C10.apply_result_dtype'", 'Props.C10.apply_aligned',
+                     'Props.C10.backward_accepts_only_matching_shape', 'Props.C10.assignGrad_keeps_shapes']
 RULE = ('every public op / nn op / loss (every reduction) / scalar-operator form x operand dtype in {float32, float64} x upstream '
         'gradient dtype in {float32, float64} x shapes incl. 0-d results (full reductions, element indexing, reduced losses): the '
         'dtype of every result and of every gradient buffer, and the shape of every gradient buffer, are compared with the model; backward-call histories over one DAG (roots that are leaves already holding a gradient, upstream dtypes alternating) with the dtype of every buffer queried after every call '
-        '(values are not compared here). Implementation-only: the float32 result agrees with the float64 result to single '
+        '(values are not compared here). The accept / reject boundary of the shape checks that guard gradients and targets: upstream gradients handed to backward(), '
+        '`.grad = ...` assignments and loss targets (mse_loss; the broadcasting BCE pair) whose shape is the tensor\'s or one of its neighbours (1-axes appended / prepended / inserted, '
+        'prefix / suffix, 0-d against (1,), one extent off, broadcast-compatible either way, same size) on leaves and op results of every rank incl. 0-d, dtype and shape of every buffer queried after every call. Implementation-only: the float32 result agrees with the float64 result to single '
         'precision. Non-trivial: accepted op with a differentiable operand; counts 0-d results separately.')
 EXHAUSTIVE = {'quick': False, 'thorough': False}
 ASSUMPTIONS = ['the float32-vs-float64 agreement clause is observed (rel 2e-4 of the value scale), not proved']
@@ -207,7 +210,7 @@ def hist_case(rng, dt):
     tries = 0
     while sum(1 for n in P.nodes if n['kind'] == 'op') < rng.randint(1, 5) and tries < 40:
         tries += 1
-        gen_dag.gen_op(rng, P, ['add', 'mul', 'neg', 'sum', 'clone', 'reshape', 'transpose'])
+        gen_dag.gen_op(rng, P, ['add', 'mul', 'neg', 'sum', 'mean', 'clone', 'reshape', 'transpose', 'pow', 'unsqueeze', 'squeeze', 'slice', 'self2'])
     lines, _ = P.lines()
     nt = len(P.tshape)
     leaf_ids = [n['outs'][0] for n in P.nodes if n['kind'] == 'leaf' and n['rg']]
@@ -219,9 +222,202 @@ def hist_case(rng, dt):
     return {'kind': 'hist', 'op': 'history', 'dt': dt, 'gdt': 'mixed', 'nout': 1, 'zero_d': any(s_ == () for s_ in P.tshape), 'lines': lines}
 
 
+# ---- the accept / reject boundary of the shape checks that guard gradients and targets -----------------------------------------
+class Exec(tprog.Impl):
+    """`t setgrad i shape data dt` : the public setter, `x.grad = Tensor(array)`"""
+    def run(self, line):
+        t = line.split(' ')
+        if t[1] == 'setgrad':
+            shape = tuple(common.parse_ints(t[3]))
+            a = np.array(common.parse_floats(t[4]), dtype=np.float64).reshape(shape).astype(tprog.DT[t[5]])
+            self.ts[int(t[2])].grad = self.sg.Tensor(a)
+            return 'ok'
+        return super().run(line)
+
+
+def to_model(line):
+    t = line.split(' ')
+    if len(t) > 1 and t[1] == 'setgrad': return ' '.join(t[:5])        # (the model's buffers carry no dtype of their own)
+    return line
+
+
+def shape_variants(sh):
+    """shapes that are NOT `sh`, by class: rank (1-axes appended / prepended / inserted, prefix, suffix, 0-d against (1,), one more
+    axis of the last extent), one extent, broadcast-compatible either way, same number of elements"""
+    sh = tuple(sh)
+    n = int(np.prod(sh)) if sh else 1
+    out = [('rank: 1-axis appended', sh + (1,)), ('rank: 1-axis prepended', (1,) + sh), ('rank: axis of extent 2 appended', sh + (2,)),
+           ('rank: two 1-axes appended', sh + (1, 1))]
+    if sh:
+        out += [('rank: prefix (last axis dropped)', sh[:-1]), ('rank: suffix (first axis dropped)', sh[1:]), ('rank: last axis repeated', sh + (sh[-1],)),
+                ('rank: 0-d', ())]
+        for k in range(len(sh)):
+            out.append(('extent: one axis longer', sh[:k] + (sh[k] + 1,) + sh[k + 1:]))
+            if sh[k] > 1:
+                out.append(('extent: one axis shorter', sh[:k] + (sh[k] - 1,) + sh[k + 1:]))
+                out.append(('broadcast: axis of extent 1 where the tensor has more', sh[:k] + (1,) + sh[k + 1:]))
+            else:
+                out.append(('broadcast: axis of extent 3 where the tensor has 1', sh[:k] + (3,) + sh[k + 1:]))
+        if len(sh) >= 2:
+            out += [('rank: 1-axis inserted', sh[:1] + (1,) + sh[1:]), ('same size: flattened', (n,)), ('same size: axes swapped', sh[:-2] + (sh[-1], sh[-2]))]
+        if sh[-1] == 1 or sh[0] == 1:
+            out.append(('rank: a 1-axis squeezed', tuple(v for v in sh if v != 1)))
+    else:
+        out += [('rank: (1,) for a 0-d tensor', (1,)), ('rank: (1, 1) for a 0-d tensor', (1, 1)), ('rank: (3,) for a 0-d tensor', (3,)), ('rank: (2, 3) for a 0-d tensor', (2, 3))]
+    seen, res = {sh}, []
+    for lab, v in out:
+        if v not in seen and 0 not in v:
+            seen.add(v); res.append((lab, v))
+    return res
+
+
+BOUNDARY_OPS = ['add', 'mul', 'neg', 'sum', 'mean', 'clone', 'reshape', 'transpose', 'slice', 'unsqueeze', 'squeeze', 'self2']
+
+
+def _boundary_graph(rng, dt):
+    P = gen_dag.Prog()
+    for _ in range(rng.randint(1, 2)):
+        sh = rng.pick([(), (1,), (3,), (2,), (2, 3), (1, 3), (2, 1), (2, 2)])
+        P.add_leaf(sh, [round(v * 8) / 8 for v in gen_dag.rand_data(rng, sh)], rng.chance(.85), dt)
+    want, tries = rng.randint(0, 4), 0
+    while sum(1 for n in P.nodes if n['kind'] == 'op') < want and tries < 40:
+        tries += 1
+        gen_dag.gen_op(rng, P, BOUNDARY_OPS)
+    if rng.chance(.4):      # a 0-d result on top: full reduction / element indexing
+        a = rng.randrange(len(P.tshape))
+        if P.tshape[a] and rng.chance(.4):
+            P.add_op('slice', [a], [tprog.show_sel(tuple(rng.randrange(n) for n in P.tshape[a]))], [()])
+        else:
+            P.add_op(rng.pick(['sum', 'mean']), [a], ['all', 0], [()])
+    return P
+
+
+def boundary_case(rng, dt, what):
+    """`what` = 'seed': backward(grad) calls whose upstream gradient has the root's shape or ONE OF ITS NEIGHBOURS (shape_variants);
+    'setter': `.grad = …` assignments likewise.  Roots / targets are leaves and op results of every rank incl. 0-d.  After every
+    call: dtype and shape of every gradient buffer.  The model mirrors the code: a gradient of another shape is refused (after the
+    traversal zero-initialised the buffers), an accepted one leaves every buffer in its tensor's shape."""
+    P = _boundary_graph(rng, dt)
+    lines, _ = P.lines()
+    nt = len(P.tshape)
+    D = lambda sh: show_floats([round(v * 8) / 8 for v in gen_dag.rand_data(rng, sh, -2, 2)])
+    classes = []
+    roots = list(range(nt))
+    zero_d = [t for t in roots if P.tshape[t] == ()]
+    for _ in range(rng.randint(2, 5)):
+        r = rng.pick(zero_d) if zero_d and rng.chance(.35) else rng.pick(roots)
+        sh = P.tshape[r]
+        if rng.chance(.65):
+            lab, gs = rng.pick(shape_variants(sh))
+        else:
+            lab, gs = 'equal', sh
+        classes.append(lab)
+        if what == 'setter' and rng.chance(.6):
+            lines.append(f"t setgrad {r} {show_ints(gs)} {D(gs)} {dt}")
+        else:
+            lines.append(f"t bw {r} {show_ints(gs)} {D(gs)} {rng.pick(['f32', 'f64'])}")
+        lines += [f't gdtype {k}' for k in range(nt)]
+    return {'kind': 'boundary-' + what, 'op': 'shape-check', 'dt': dt, 'gdt': 'mixed', 'nout': 1, 'zero_d': bool(zero_d), 'lines': lines, 'classes': classes}
+
+
+def target_case(rng, dt):
+    """loss targets whose shape is the prediction's or one of its neighbours: mse_loss checks the shapes (any other shape is
+    refused), the BCE pair broadcasts (a target that broadcasts TO the prediction's shape is accepted and the gradient keeps the
+    prediction's shape). Function and nn.*Loss class (every reduction); backward; dtype / shape of every buffer"""
+    name = rng.pick(['mse_loss', 'mse_loss', 'binary_cross_entropy', 'binary_cross_entropy_with_logits'])
+    s = gen_ops.rshape(rng, 0 if name == 'mse_loss' else 1, 3)
+    n = int(np.prod(s)) if s else 1
+    if rng.chance(.7):
+        var = shape_variants(s)
+        if name != 'mse_loss':      # (a target that makes the LOSS larger than the prediction is the kernels' subject, C02 / C06)
+            var = [(l, v) for l, v in var if gen_dag.bshape(s, v) == s]
+        lab, ts = rng.pick(var) if var else ('equal', s)
+    else:
+        lab, ts = 'equal', s
+    m = int(np.prod(ts)) if ts else 1
+    pv = [round(v * 64) / 64 for v in gen_ops.vals(rng, s, 'prob' if name == 'binary_cross_entropy' else 'any')]
+    tv = [float(rng.randint(0, 1)) for _ in range(m)] if name != 'mse_loss' else [round(v * 64) / 64 for v in gen_ops.vals(rng, ts)]
+    trg = name == 'mse_loss' and rng.chance(.4)
+    lines = [gen_dag.leaf_line(s, pv, True, dt), gen_dag.leaf_line(ts, tv, trg, dt)]
+    red = rng.pick(['mean', 'sum', 'none', 'fn'])
+    if red == 'fn':
+        lines.append(f't op {name} 0,1'); k = 2; osh = s
+    else:
+        lines.append(f't loss {name} {red} 0 1'); k = 2 + (0 if red == 'none' else 1); osh = s if red == 'none' else ()
+    gdt = rng.pick(['f32', 'f64'])
+    lines += [f't dtype {k}', f"t bw {k} {show_ints(osh)} {show_floats([round(v * 8) / 8 for v in gen_dag.rand_data(rng, osh, -2, 2)])} {gdt}",
+              't gdtype 0', 't gdtype 1', f't gdtype {k}']
+    return {'kind': 'boundary-target', 'op': name + '/' + red, 'dt': dt, 'gdt': gdt, 'nout': 1, 'zero_d': osh == (), 'lines': lines, 'classes': [lab]}
+
+
+SCALAR_OPS = ['mean', 'sum', 'neg', 'clone', 'exp', 'sqrt', 'log', 'pow', 'reshape', 'unsqueeze', 'squeeze', 'self2', 'add', 'mul', 'tanh', 'sigmoid', 'relu',
+              'softmax', 'log_softmax', 'sop', 'mse']
+
+
+def scalar_leaf_case(rng, dt, first=None):
+    """a 0-d (sometimes (1,) / (1, 1)) leaf that is the root of several backward calls — from the second call on it ACCUMULATES into the
+    buffer it already holds — and the operand of ops of the whole catalogue that accept it (reductions, element-wise, shape ops, nn
+    activations, operator forms with Python scalars, a loss), differentiated afterwards: every op's backward adds into that buffer.
+    Upstream gradients of both dtypes; dtype and shape of every buffer after every call"""
+    sh = rng.pick([(), (), (), (1,), (1, 1)])
+    lines = [gen_dag.leaf_line(sh, [rng.pick([0.75, 1.5, 0.25, 2.0])], True, dt)]
+    nt, sinks = 1, []
+    for j in range(rng.randint(1, 4)):
+        op = first if (j == 0 and first) else rng.pick(SCALAR_OPS)      # (`first`: every op of the list takes its turn)
+        if op in ('mean', 'sum'):
+            keep = rng.randint(0, 1)
+            lines.append(f't op {op} 0 all {keep}'); osh = tuple(1 for _ in sh) if keep else ()
+        elif op in ('neg', 'clone', 'exp', 'sqrt', 'log', 'tanh', 'sigmoid', 'relu'): lines.append(f't op {op} 0'); osh = sh
+        elif op == 'pow': lines.append(f't op pow 0 {fbits(rng.pick([2.0, 3.0, 0.5]))}'); osh = sh
+        elif op == 'reshape': lines.append('t op reshape 0 1'); osh = (1,)
+        elif op == 'unsqueeze': lines.append('t op unsqueeze 0 0'); osh = (1,) + sh
+        elif op == 'squeeze': lines.append('t op squeeze 0 all'); osh = ()
+        elif op == 'self2': lines.append(f't op {rng.pick(["add", "mul"])} 0,0'); osh = sh
+        elif op in ('add', 'mul'):      # against a tensor of another shape: the leaf is broadcast, its gradient reduced back
+            s2 = rng.pick([(3,), (2, 2), ()])
+            lines.append(gen_dag.leaf_line(s2, [round(v * 8) / 8 for v in gen_dag.rand_data(rng, s2)], rng.chance(.5), dt)); nt += 1
+            lines.append(f't op {op} 0,{nt - 1}'); osh = gen_dag.bshape(sh, s2)
+        elif op in ('softmax', 'log_softmax'):
+            if sh == (): lines.append(f't op {op} 0 {rng.pick([0, -1])}')
+            else: lines.append(f't op {op} 0 {rng.randrange(-len(sh), len(sh))}')
+            osh = sh
+        elif op == 'sop':
+            kind = rng.pick(['add', 'mul', 'neg', 'sub', 'rsub', 'div', 'rdiv'])
+            lines.append(f"t sop {kind} 0 s{fbits(rng.pick([3.0, 0.5, 2.0]))}")
+            nt += {'add': 1, 'mul': 1, 'neg': 1, 'rsub': 3, 'rdiv': 2, 'sub': 1, 'div': 1}[kind]; osh = sh
+        else:                           # mse against a constant target, reduced
+            lines.append(gen_dag.leaf_line(sh, [0.5], False, dt)); nt += 1
+            lines.append(f't loss mse_loss {rng.pick(["mean", "sum"])} 0 {nt - 1}'); nt += 1; osh = ()
+        nt += 1
+        sinks.append((nt - 1, osh))
+    G = lambda s_: show_floats([round(v * 8) / 8 for v in gen_dag.rand_data(rng, s_, -2, 2)])
+    q = lambda: [f't gdtype {k}' for k in range(nt)]
+    evs = ['leaf'] * rng.randint(2, 3) + ['sink'] * len(sinks)
+    if rng.chance(.5): evs = ['sink'] + evs          # (or a sweep through the leaf first: the buffer then starts as zeros_like)
+    si = 0
+    for e in evs:
+        if e == 'leaf':
+            lines.append(f"t bw 0 {show_ints(sh)} {G(sh)} {rng.pick(['f32', 'f64'])}")
+        else:
+            k, osh = sinks[si % len(sinks)]; si += 1
+            lines.append(f"t bw {k} {show_ints(osh)} {G(osh)} {rng.pick(['f32', 'f64'])}")
+        lines += q()
+    return {'kind': 'scalar-leaf', 'op': 'accumulating 0-d leaf', 'dt': dt, 'gdt': 'mixed', 'nout': 1, 'zero_d': True, 'lines': lines}
+
+
 def cases(rng, tier):
     out = []
     reps = 2 if tier == 'quick' else 40
+    for dt in ('f32', 'f64'):
+        for j in range(21 * reps):
+            out.append(scalar_leaf_case(rng, dt, SCALAR_OPS[j % len(SCALAR_OPS)]))
+    for dt in ('f32', 'f64'):
+        for _ in range(30 * reps):
+            out.append(boundary_case(rng, dt, 'seed'))
+        for _ in range(20 * reps):
+            out.append(boundary_case(rng, dt, 'setter'))
+        for _ in range(20 * reps):
+            out.append(target_case(rng, dt))
     for dt in ('f32', 'f64'):
         for _ in range(20 * reps):
             out.append(hist_case(rng, dt))
@@ -246,13 +442,73 @@ def cases(rng, tier):
         out.append({'kind': 'op', 'op': 'sum', 'dt': dt, 'gdt': 'f32', 'nout': 1, 'zero_d': True,
                     'lines': [gen_dag.leaf_line((2, 2), [1., 2, 3, 4], True, dt), 't op sum 0 all 0', 't dtype 1', 't op slice 0 i0;i1', 't dtype 2',
                               f't bw 1 _ {show_floats([2.0])} f32', 't gdtype 0', 't gdtype 1']})
+    # corpus: a 0-d float32 leaf that was the root of two backward calls (0-d + 0-d used to leave a NumPy scalar as its buffer), then a
+    # sweep through mean, whose gradient array is float64 (finding, repaired)
+    one = show_floats([1.0])
+    out.append({'kind': 'scalar-leaf', 'op': 'accumulating 0-d leaf', 'dt': 'f32', 'gdt': 'f32', 'nout': 1, 'zero_d': True,
+                'lines': [gen_dag.leaf_line((), [0.75], True, 'f32'), 't op mean 0 all 0', f't bw 0 _ {one} f32', 't gdtype 0', f't bw 0 _ {one} f32', 't gdtype 0',
+                          f't bw 1 _ {one} f32', 't gdtype 0', 't gdtype 1']})
     for c in out:
         c['desc'] = ' ; '.join(c['lines'])[:500]
+    _SAFE['pending'] = [c['lines'] for c in out if c['kind'].startswith('boundary')]
     return out
 
 
+# The boundary programs run in CHILD interpreters: a gradient of an odd shape that gets past a shape check can take NumPy down with
+# the whole process (np.add.at with values that do not broadcast is a segmentation fault, not an exception). One child runs all
+# pending programs and reports after each; when it dies, the program it was running is answered `crashed` on every line and a new
+# child goes on with the rest.
+_SAFE = {'pending': [], 'done': {}}
+
+
+def _child(progs):
+    import subprocess, sys, json, os
+    here = os.path.dirname(os.path.dirname(os.path.abspath(__file__)))
+    code = ("import sys, json; sys.path.insert(0, %r)\n"
+            "import tprog, props.c10 as m\n"
+            "for k, p in enumerate(json.load(sys.stdin)):\n"
+            "    print('@@RESULT@@' + json.dumps([k, tprog.run_program(p, m.Exec)]), flush=True)\n") % here
+    p = subprocess.run([sys.executable, '-c', code], input=json.dumps(progs), capture_output=True, text=True, timeout=900)
+    res = {}
+    for l in p.stdout.split('\n'):
+        if l.startswith('@@RESULT@@'):
+            k, io = json.loads(l[len('@@RESULT@@'):])
+            res[k] = io
+    return res, p.returncode
+
+
+def _safe_run(programs):
+    """answers of every program (list of lines); a program that kills its interpreter is answered ['crashed', ...]"""
+    out, todo = {}, list(range(len(programs)))
+    while todo:
+        res, rc = _child([programs[i] for i in todo])
+        for k, io in res.items(): out[todo[k]] = io
+        rest = todo[len(res):]
+        if rest and len(res) < len(todo):
+            if rc == 0 and not res: raise RuntimeError('child interpreter gave no answers')
+            out[rest[0]] = ['crashed'] * len(programs[rest[0]])      # the one that was running when the child died
+            rest = rest[1:]
+        todo = rest
+    return [out[i] for i in range(len(programs))]
+
+
+def _safe_io(lines):
+    key = common.digest(lines)
+    if key not in _SAFE['done']:
+        progs = [q for q in _SAFE['pending'] if common.digest(q) not in _SAFE['done']]
+        if lines not in progs: progs.append(lines)
+        for q, io in zip(progs, _safe_run(progs)):
+            _SAFE['done'][common.digest(q)] = io
+        _SAFE['pending'] = []
+    return _SAFE['done'][key]
+
+
+def _run(c):
+    return _safe_io(c['lines']) if c['kind'].startswith('boundary') else tprog.run_program(c['lines'], Exec)
+
+
 def impl(c):
-    return tprog.run_program(c['lines'])
+    return _run(c)
 
 
 def compare(c, mo, io):
@@ -270,8 +526,8 @@ def compare(c, mo, io):
         if l.startswith(('t dtype', 't gdtype')) or l.startswith(('t op', 't sop', 't loss', 't leaf')):
             if m != i and i != 'hidden' and not (m == 'bad-op' and i == 'rejected'):
                 diffs.append((l[:120], m, i))
-        elif l.startswith('t bw'):
-            if (m == 'rejected') != (i == 'rejected'):
+        elif l.startswith(('t bw', 't setgrad')):
+            if (m == 'rejected') != (i == 'rejected') or i == 'crashed':
                 diffs.append((l[:120], m[:40], i[:40]))
     if not diffs and c['dt'] == 'f32' and c['kind'] == 'op' and 'leaves' in c:
         f = _agree(c)
@@ -308,6 +564,9 @@ def distribution(cases):
     for c in cases:
         k = f"{c['kind']}:{c['dt']}/g{c['gdt']}"
         d[k] = d.get(k, 0) + 1
+        for lab in c.get('classes', []):        # shape of the upstream gradient / assigned gradient / loss target relative to the tensor's
+            k = f"{c['kind']} shape class {lab}"
+            d[k] = d.get(k, 0) + 1
     return d
 
 
@@ -324,11 +583,21 @@ def oracle(c):
     if c['kind'] == 'big':
         f = common.outcome(lambda: _big(c))
         return {'key': dict(key, cls='large-input-dtype'), 'case': cc, 'what': str(f)} if f else None
-    io = tprog.run_program(c['lines'])
-    for l, o in zip(c['lines'], io):
+    io = _run(c)
+    if 'crashed' in io:
+        return {'key': dict(key, cls='interpreter-crash'), 'case': cc,
+                'what': 'the program kills the interpreter (a gradient / target of a shape the unchanged code refuses reached a NumPy kernel): ' + ' ; '.join(c['lines'])[:300]}
+    last = None
+    for li, (l, o) in enumerate(zip(c['lines'], io)):
+        if l.startswith(('t bw', 't setgrad')): last = (l.split(' ')[1:4], o[:8])
         if l.startswith('t dtype') and o in ('f32', 'f64') and o != c['dt']:
             return {'key': dict(key, cls='result-dtype'), 'case': cc, 'what': f"{c['op']} on {c['dt']} operands returned {o} ({l})"}
         if l.startswith('t gdtype') and o not in ('-', 'hidden', 'rejected', c['dt']):
+            if c['kind'].startswith('boundary'):      # the shortest prefix of the program that shows it
+                cc = dict(cc, lines=c['lines'][:li + 1])
+                return {'key': dict(key, cls='grad-dtype-shape'), 'case': cc,
+                        'what': f"after `{' '.join(last[0]) if last else '?'}` (a gradient of that shape handed to t{last[0][1] if last else '?'}; answered {last[1] if last else '?'}) "
+                                f"the gradient buffer of a {c['dt']} tensor is {o} ({l})"}
             return {'key': dict(key, cls='grad-dtype-shape'), 'case': cc, 'what': f"{c['op']} on {c['dt']} operands with a {c['gdt']} upstream gradient: gradient buffer is {o} ({l})"}
     if c['dt'] == 'f32' and c['kind'] == 'op' and 'leaves' in c:
         f = _agree(c)
